@@ -45,39 +45,39 @@ def cAnimation : Schema := .obj [
   ((.str "output".toList), .leaf 4),
   ((.str "slider".toList), .leaf 5),
   ((.str "time".toList), .leaf 3)]
-  ["as_dict".toList, "copy".toList, "update".toList] none [] true
+  ["_MagicProperties__isfrozen".toList, "__dict__".toList, "__doc__".toList, "__module__".toList, "__slotnames__".toList, "_fps".toList, "_maxfps".toList, "_maxframes".toList, "_output".toList, "_slider".toList, "_time".toList] none [] true
 
 /-- class `Description` -/
 def cDescription : Schema := .obj [
   ((.str "show".toList), .leaf 5),
   ((.str "text".toList), .leaf 9)]
-  ["as_dict".toList, "copy".toList, "update".toList] none [((.str "text".toList), none), ((.str "show".toList), none)] true
+  ["_MagicProperties__isfrozen".toList, "__dict__".toList, "__doc__".toList, "__module__".toList, "__slotnames__".toList, "_show".toList, "_text".toList] none [((.str "text".toList), none), ((.str "show".toList), none)] true
 
 /-- class `Legend` -/
 def cLegend : Schema := .obj [
   ((.str "show".toList), .leaf 5),
   ((.str "text".toList), .leaf 9)]
-  ["as_dict".toList, "copy".toList, "update".toList] none [((.str "show".toList), none)] true
+  ["_MagicProperties__isfrozen".toList, "__dict__".toList, "__doc__".toList, "__module__".toList, "__slotnames__".toList, "_show".toList, "_text".toList] none [((.str "show".toList), none)] true
 
 /-- class `Model3d` -/
 def cModel3d : Schema := .obj [
   ((.str "data".toList), .leaf 10),
   ((.str "showdefault".toList), .leaf 11)]
-  ["add_trace".toList, "as_dict".toList, "copy".toList, "update".toList] none [((.str "showdefault".toList), (some 5)), ((.str "data".toList), none)] true
+  ["_MagicProperties__isfrozen".toList, "__dict__".toList, "__doc__".toList, "__module__".toList, "__slotnames__".toList, "_data".toList, "_showdefault".toList] none [((.str "showdefault".toList), (some 5)), ((.str "data".toList), none)] true
 
 /-- class `Line` -/
 def cLine : Schema := .obj [
   ((.str "color".toList), .leaf 6),
   ((.str "style".toList), .leaf 13),
   ((.str "width".toList), .leaf 14)]
-  ["as_dict".toList, "copy".toList, "update".toList] none [((.str "style".toList), none), ((.str "color".toList), none), ((.str "width".toList), none)] true
+  ["_MagicProperties__isfrozen".toList, "__dict__".toList, "__doc__".toList, "__module__".toList, "__slotnames__".toList, "_color".toList, "_style".toList, "_width".toList] none [((.str "style".toList), none), ((.str "color".toList), none), ((.str "width".toList), none)] true
 
 /-- class `Marker` -/
 def cMarker : Schema := .obj [
   ((.str "color".toList), .leaf 6),
   ((.str "size".toList), .leaf 14),
   ((.str "symbol".toList), .leaf 15)]
-  ["as_dict".toList, "copy".toList, "update".toList] none [((.str "size".toList), none), ((.str "color".toList), none), ((.str "symbol".toList), none)] true
+  ["_MagicProperties__isfrozen".toList, "__dict__".toList, "__doc__".toList, "__module__".toList, "__slotnames__".toList, "_color".toList, "_size".toList, "_symbol".toList] none [((.str "size".toList), none), ((.str "color".toList), none), ((.str "symbol".toList), none)] true
 
 /-- class `Path` -/
 def cPath : Schema := .obj [
@@ -86,7 +86,7 @@ def cPath : Schema := .obj [
   ((.str "marker".toList), cMarker.withShort none),
   ((.str "numbering".toList), .leaf 5),
   ((.str "show".toList), .leaf 5)]
-  ["as_dict".toList, "copy".toList, "update".toList] none [((.str "show".toList), none), ((.str "marker".toList), none), ((.str "line".toList), none), ((.str "frames".toList), none), ((.str "numbering".toList), none)] true
+  ["_MagicProperties__isfrozen".toList, "__dict__".toList, "__doc__".toList, "__module__".toList, "__slotnames__".toList, "_frames".toList, "_line".toList, "_marker".toList, "_numbering".toList, "_show".toList] none [((.str "show".toList), none), ((.str "marker".toList), none), ((.str "line".toList), none), ((.str "frames".toList), none), ((.str "numbering".toList), none)] true
 
 /-- class `BaseStyle` -/
 def cBaseStyle : Schema := .obj [
@@ -97,7 +97,7 @@ def cBaseStyle : Schema := .obj [
   ((.str "model3d".toList), cModel3d.withShort none),
   ((.str "opacity".toList), .leaf 8),
   ((.str "path".toList), cPath.withShort none)]
-  ["as_dict".toList, "copy".toList, "update".toList] none [((.str "label".toList), none), ((.str "description".toList), none), ((.str "legend".toList), none), ((.str "color".toList), none), ((.str "opacity".toList), none), ((.str "path".toList), none), ((.str "model3d".toList), none)] true
+  ["_MagicProperties__isfrozen".toList, "__dict__".toList, "__doc__".toList, "__module__".toList, "__slotnames__".toList, "_color".toList, "_description".toList, "_label".toList, "_legend".toList, "_model3d".toList, "_opacity".toList, "_path".toList] none [((.str "label".toList), none), ((.str "description".toList), none), ((.str "legend".toList), none), ((.str "color".toList), none), ((.str "opacity".toList), none), ((.str "path".toList), none), ((.str "model3d".toList), none)] true
 
 /-- class `Arrow` -/
 def cArrow : Schema := .obj [
@@ -108,7 +108,7 @@ def cArrow : Schema := .obj [
   ((.str "sizemode".toList), .leaf 16),
   ((.str "style".toList), .leaf 13),
   ((.str "width".toList), .leaf 14)]
-  ["as_dict".toList, "copy".toList, "update".toList] none [((.str "show".toList), none), ((.str "size".toList), none)] true
+  ["_MagicProperties__isfrozen".toList, "__dict__".toList, "__doc__".toList, "__module__".toList, "__slotnames__".toList, "_color".toList, "_offset".toList, "_show".toList, "_size".toList, "_sizemode".toList, "_style".toList, "_width".toList] none [((.str "style".toList), none), ((.str "color".toList), none), ((.str "width".toList), none), ((.str "show".toList), none), ((.str "size".toList), none)] true
 
 /-- class `CurrentLine` -/
 def cCurrentLine : Schema := .obj [
@@ -116,20 +116,20 @@ def cCurrentLine : Schema := .obj [
   ((.str "show".toList), .leaf 5),
   ((.str "style".toList), .leaf 13),
   ((.str "width".toList), .leaf 14)]
-  ["as_dict".toList, "copy".toList, "update".toList] none [((.str "style".toList), none), ((.str "color".toList), none), ((.str "width".toList), none)] true
+  ["_MagicProperties__isfrozen".toList, "__dict__".toList, "__doc__".toList, "__module__".toList, "__slotnames__".toList, "_color".toList, "_show".toList, "_style".toList, "_width".toList] none [((.str "style".toList), none), ((.str "color".toList), none), ((.str "width".toList), none)] true
 
 /-- class `DefaultCurrent` -/
 def cDefaultCurrent : Schema := .obj [
   ((.str "arrow".toList), cArrow.withShort none),
   ((.str "line".toList), cCurrentLine.withShort none)]
-  ["as_dict".toList, "copy".toList, "update".toList] none [((.str "arrow".toList), none)] true
+  ["_MagicProperties__isfrozen".toList, "__dict__".toList, "__doc__".toList, "__module__".toList, "__slotnames__".toList, "_arrow".toList, "_line".toList] none [((.str "arrow".toList), none)] true
 
 /-- class `DefaultDipole` -/
 def cDefaultDipole : Schema := .obj [
   ((.str "pivot".toList), .leaf 17),
   ((.str "size".toList), .leaf 14),
   ((.str "sizemode".toList), .leaf 16)]
-  ["as_dict".toList, "copy".toList, "update".toList] none [((.str "size".toList), none), ((.str "sizemode".toList), none), ((.str "pivot".toList), none)] true
+  ["_MagicProperties__isfrozen".toList, "__dict__".toList, "__doc__".toList, "__module__".toList, "__slotnames__".toList, "_allowed_pivots".toList, "_pivot".toList, "_size".toList, "_sizemode".toList] none [((.str "size".toList), none), ((.str "sizemode".toList), none), ((.str "pivot".toList), none)] true
 
 /-- class `MagnetizationColor` -/
 def cMagnetizationColor : Schema := .obj [
@@ -138,7 +138,7 @@ def cMagnetizationColor : Schema := .obj [
   ((.str "north".toList), .leaf 6),
   ((.str "south".toList), .leaf 6),
   ((.str "transition".toList), .leaf 8)]
-  ["as_dict".toList, "copy".toList, "update".toList] none [((.str "north".toList), none), ((.str "south".toList), none), ((.str "middle".toList), none), ((.str "transition".toList), none), ((.str "mode".toList), none)] true
+  ["_MagicProperties__isfrozen".toList, "__dict__".toList, "__doc__".toList, "__module__".toList, "__slotnames__".toList, "_allowed_modes".toList, "_middle".toList, "_mode".toList, "_north".toList, "_south".toList, "_transition".toList] none [((.str "north".toList), none), ((.str "middle".toList), none), ((.str "south".toList), none), ((.str "transition".toList), none), ((.str "mode".toList), none)] true
 
 /-- class `Magnetization` -/
 def cMagnetization : Schema := .obj [
@@ -147,12 +147,12 @@ def cMagnetization : Schema := .obj [
   ((.str "mode".toList), .leaf 18),
   ((.str "show".toList), .leaf 5),
   ((.str "size".toList), .alias [(.str "arrow".toList), (.str "size".toList)])]
-  ["as_dict".toList, "copy".toList, "update".toList] none [((.str "show".toList), none), ((.str "size".toList), none), ((.str "color".toList), none), ((.str "mode".toList), none)] true
+  ["_MagicProperties__isfrozen".toList, "__dict__".toList, "__doc__".toList, "__module__".toList, "__slotnames__".toList, "_arrow".toList, "_color".toList, "_mode".toList, "_show".toList] none [((.str "show".toList), none), ((.str "size".toList), none), ((.str "color".toList), none), ((.str "mode".toList), none)] true
 
 /-- class `DefaultMagnet` -/
 def cDefaultMagnet : Schema := .obj [
   ((.str "magnetization".toList), cMagnetization.withShort none)]
-  ["as_dict".toList, "copy".toList, "update".toList] none [((.str "magnetization".toList), none)] true
+  ["_MagicProperties__isfrozen".toList, "__dict__".toList, "__doc__".toList, "__module__".toList, "__slotnames__".toList, "_magnetization".toList] none [((.str "magnetization".toList), none)] true
 
 /-- class `DefaultMarkers` -/
 def cDefaultMarkers : Schema := .obj [
@@ -164,20 +164,20 @@ def cDefaultMarkers : Schema := .obj [
   ((.str "model3d".toList), cModel3d.withShort none),
   ((.str "opacity".toList), .leaf 8),
   ((.str "path".toList), cPath.withShort none)]
-  ["as_dict".toList, "copy".toList, "update".toList] none [((.str "marker".toList), none)] true
+  ["_MagicProperties__isfrozen".toList, "__dict__".toList, "__doc__".toList, "__module__".toList, "__slotnames__".toList, "_color".toList, "_description".toList, "_label".toList, "_legend".toList, "_marker".toList, "_model3d".toList, "_opacity".toList, "_path".toList] none [((.str "label".toList), none), ((.str "description".toList), none), ((.str "legend".toList), none), ((.str "color".toList), none), ((.str "opacity".toList), none), ((.str "path".toList), none), ((.str "model3d".toList), none), ((.str "marker".toList), none)] true
 
 /-- class `ArrowSingle` -/
 def cArrowSingle : Schema := .obj [
   ((.str "color".toList), .leaf 6),
   ((.str "show".toList), .leaf 5)]
-  ["as_dict".toList, "copy".toList, "update".toList] none [((.str "show".toList), (some 5)), ((.str "color".toList), none)] true
+  ["_MagicProperties__isfrozen".toList, "__dict__".toList, "__doc__".toList, "__module__".toList, "__slotnames__".toList, "_color".toList, "_show".toList] none [((.str "show".toList), (some 5)), ((.str "color".toList), none)] true
 
 /-- class `ArrowCS` -/
 def cArrowCS : Schema := .obj [
   ((.str "x".toList), cArrowSingle.withShort none),
   ((.str "y".toList), cArrowSingle.withShort none),
   ((.str "z".toList), cArrowSingle.withShort none)]
-  ["as_dict".toList, "copy".toList, "update".toList] none [((.str "x".toList), none), ((.str "y".toList), none), ((.str "z".toList), none)] true
+  ["_MagicProperties__isfrozen".toList, "__dict__".toList, "__doc__".toList, "__module__".toList, "__slotnames__".toList, "_x".toList, "_y".toList, "_z".toList] none [((.str "x".toList), none), ((.str "y".toList), none), ((.str "z".toList), none)] true
 
 /-- class `Pixel` -/
 def cPixel : Schema := .obj [
@@ -185,7 +185,7 @@ def cPixel : Schema := .obj [
   ((.str "size".toList), .leaf 14),
   ((.str "sizemode".toList), .leaf 16),
   ((.str "symbol".toList), .leaf 15)]
-  ["as_dict".toList, "copy".toList, "update".toList] none [((.str "size".toList), (some 8)), ((.str "sizemode".toList), none), ((.str "color".toList), none), ((.str "symbol".toList), none)] true
+  ["_MagicProperties__isfrozen".toList, "__dict__".toList, "__doc__".toList, "__module__".toList, "__slotnames__".toList, "_color".toList, "_size".toList, "_sizemode".toList, "_symbol".toList] none [((.str "size".toList), (some 8)), ((.str "sizemode".toList), none), ((.str "color".toList), none), ((.str "symbol".toList), none)] true
 
 /-- class `DefaultSensor` -/
 def cDefaultSensor : Schema := .obj [
@@ -193,7 +193,7 @@ def cDefaultSensor : Schema := .obj [
   ((.str "pixel".toList), cPixel.withShort none),
   ((.str "size".toList), .leaf 14),
   ((.str "sizemode".toList), .leaf 16)]
-  ["as_dict".toList, "copy".toList, "update".toList] none [((.str "size".toList), none), ((.str "sizemode".toList), none), ((.str "pixel".toList), none), ((.str "arrows".toList), none)] true
+  ["_MagicProperties__isfrozen".toList, "__dict__".toList, "__doc__".toList, "__module__".toList, "__slotnames__".toList, "_arrows".toList, "_pixel".toList, "_size".toList, "_sizemode".toList] none [((.str "size".toList), none), ((.str "sizemode".toList), none), ((.str "pixel".toList), none), ((.str "arrows".toList), none)] true
 
 /-- class `Orientation` -/
 def cOrientation : Schema := .obj [
@@ -202,13 +202,13 @@ def cOrientation : Schema := .obj [
   ((.str "show".toList), .leaf 5),
   ((.str "size".toList), .leaf 14),
   ((.str "symbol".toList), .leaf 21)]
-  ["as_dict".toList, "copy".toList, "update".toList] none [] true
+  ["_MagicProperties__isfrozen".toList, "__dict__".toList, "__doc__".toList, "__module__".toList, "__slotnames__".toList, "_allowed_symbols".toList, "_color".toList, "_offset".toList, "_show".toList, "_size".toList, "_symbol".toList] none [] true
 
 /-- class `DefaultTriangle` -/
 def cDefaultTriangle : Schema := .obj [
   ((.str "magnetization".toList), cMagnetization.withShort none),
   ((.str "orientation".toList), cOrientation.withShort none)]
-  ["as_dict".toList, "copy".toList, "update".toList] none [((.str "magnetization".toList), none), ((.str "orientation".toList), none)] true
+  ["_MagicProperties__isfrozen".toList, "__dict__".toList, "__doc__".toList, "__module__".toList, "__slotnames__".toList, "_magnetization".toList, "_orientation".toList] none [((.str "magnetization".toList), none), ((.str "orientation".toList), none)] true
 
 /-- class `DisconnectedMesh` -/
 def cDisconnectedMesh : Schema := .obj [
@@ -216,28 +216,28 @@ def cDisconnectedMesh : Schema := .obj [
   ((.str "line".toList), cLine.withShort none),
   ((.str "marker".toList), cMarker.withShort none),
   ((.str "show".toList), .leaf 5)]
-  ["as_dict".toList, "copy".toList, "update".toList] none [] true
+  ["_MagicProperties__isfrozen".toList, "__dict__".toList, "__doc__".toList, "__module__".toList, "__slotnames__".toList, "_colorsequence".toList, "_line".toList, "_marker".toList, "_show".toList] none [] true
 
 /-- class `GridMesh` -/
 def cGridMesh : Schema := .obj [
   ((.str "line".toList), cLine.withShort none),
   ((.str "marker".toList), cMarker.withShort none),
   ((.str "show".toList), .leaf 5)]
-  ["as_dict".toList, "copy".toList, "update".toList] none [] true
+  ["_MagicProperties__isfrozen".toList, "__dict__".toList, "__doc__".toList, "__module__".toList, "__slotnames__".toList, "_line".toList, "_marker".toList, "_show".toList] none [] true
 
 /-- class `OpenMesh` -/
 def cOpenMesh : Schema := .obj [
   ((.str "line".toList), cLine.withShort none),
   ((.str "marker".toList), cMarker.withShort none),
   ((.str "show".toList), .leaf 5)]
-  ["as_dict".toList, "copy".toList, "update".toList] none [] true
+  ["_MagicProperties__isfrozen".toList, "__dict__".toList, "__doc__".toList, "__module__".toList, "__slotnames__".toList, "_line".toList, "_marker".toList, "_show".toList] none [] true
 
 /-- class `SelfIntersectingMesh` -/
 def cSelfIntersectingMesh : Schema := .obj [
   ((.str "line".toList), cLine.withShort none),
   ((.str "marker".toList), cMarker.withShort none),
   ((.str "show".toList), .leaf 5)]
-  ["as_dict".toList, "copy".toList, "update".toList] none [] true
+  ["_MagicProperties__isfrozen".toList, "__dict__".toList, "__doc__".toList, "__module__".toList, "__slotnames__".toList, "_line".toList, "_marker".toList, "_show".toList] none [] true
 
 /-- class `TriMesh` -/
 def cTriMesh : Schema := .obj [
@@ -245,14 +245,14 @@ def cTriMesh : Schema := .obj [
   ((.str "grid".toList), cGridMesh.withShort none),
   ((.str "open".toList), cOpenMesh.withShort none),
   ((.str "selfintersecting".toList), cSelfIntersectingMesh.withShort none)]
-  ["as_dict".toList, "copy".toList, "update".toList] none [] true
+  ["_MagicProperties__isfrozen".toList, "__dict__".toList, "__doc__".toList, "__module__".toList, "__slotnames__".toList, "_disconnected".toList, "_grid".toList, "_open".toList, "_selfintersecting".toList] none [] true
 
 /-- class `DefaultTriangularMesh` -/
 def cDefaultTriangularMesh : Schema := .obj [
   ((.str "magnetization".toList), cMagnetization.withShort none),
   ((.str "mesh".toList), cTriMesh.withShort none),
   ((.str "orientation".toList), cOrientation.withShort none)]
-  ["as_dict".toList, "copy".toList, "update".toList] none [((.str "magnetization".toList), none), ((.str "orientation".toList), none), ((.str "mesh".toList), none)] true
+  ["_MagicProperties__isfrozen".toList, "__dict__".toList, "__doc__".toList, "__module__".toList, "__slotnames__".toList, "_magnetization".toList, "_mesh".toList, "_orientation".toList] none [((.str "magnetization".toList), none), ((.str "orientation".toList), none), ((.str "mesh".toList), none)] true
 
 /-- class `DisplayStyle` -/
 def cDisplayStyle : Schema := .obj [
@@ -264,7 +264,7 @@ def cDisplayStyle : Schema := .obj [
   ((.str "sensor".toList), cDefaultSensor.withShort none),
   ((.str "triangle".toList), cDefaultTriangle.withShort none),
   ((.str "triangularmesh".toList), cDefaultTriangularMesh.withShort none)]
-  ["as_dict".toList, "copy".toList, "reset".toList, "update".toList] none [((.str "base".toList), none), ((.str "magnet".toList), none), ((.str "current".toList), none), ((.str "dipole".toList), none), ((.str "triangle".toList), none), ((.str "sensor".toList), none), ((.str "markers".toList), none)] true
+  ["_MagicProperties__isfrozen".toList, "__dict__".toList, "__doc__".toList, "__module__".toList, "__slotnames__".toList, "_base".toList, "_current".toList, "_dipole".toList, "_magnet".toList, "_markers".toList, "_sensor".toList, "_triangle".toList, "_triangularmesh".toList] none [((.str "base".toList), none), ((.str "magnet".toList), none), ((.str "current".toList), none), ((.str "dipole".toList), none), ((.str "triangle".toList), none), ((.str "sensor".toList), none), ((.str "markers".toList), none)] true
 
 /-- class `Display` -/
 def cDisplay : Schema := .obj [
@@ -273,12 +273,12 @@ def cDisplay : Schema := .obj [
   ((.str "backend".toList), .leaf 1),
   ((.str "colorsequence".toList), .leaf 2),
   ((.str "style".toList), cDisplayStyle.withShort none)]
-  ["as_dict".toList, "copy".toList, "update".toList] none [] true
+  ["_MagicProperties__isfrozen".toList, "__dict__".toList, "__doc__".toList, "__module__".toList, "__slotnames__".toList, "_animation".toList, "_autosizefactor".toList, "_backend".toList, "_colorsequence".toList, "_style".toList] none [] true
 
 /-- class `DefaultSettings` -/
 def cDefaultSettings : Schema := .obj [
   ((.str "display".toList), cDisplay.withShort none)]
-  ["as_dict".toList, "copy".toList, "reset".toList, "update".toList] none [((.str "display".toList), none)] true
+  ["_MagicProperties__isfrozen".toList, "__dict__".toList, "__doc__".toList, "__module__".toList, "__slotnames__".toList, "_display".toList] none [((.str "display".toList), none)] true
 
 /-- class `MagnetStyle` -/
 def cMagnetStyle : Schema := .obj [
@@ -290,7 +290,7 @@ def cMagnetStyle : Schema := .obj [
   ((.str "model3d".toList), cModel3d.withShort none),
   ((.str "opacity".toList), .leaf 8),
   ((.str "path".toList), cPath.withShort none)]
-  ["as_dict".toList, "copy".toList, "update".toList] none [] true
+  ["_MagicProperties__isfrozen".toList, "__dict__".toList, "__doc__".toList, "__module__".toList, "__slotnames__".toList, "_color".toList, "_description".toList, "_label".toList, "_legend".toList, "_magnetization".toList, "_model3d".toList, "_opacity".toList, "_path".toList] none [((.str "label".toList), none), ((.str "description".toList), none), ((.str "legend".toList), none), ((.str "color".toList), none), ((.str "opacity".toList), none), ((.str "path".toList), none), ((.str "model3d".toList), none)] true
 
 /-- class `SensorStyle` -/
 def cSensorStyle : Schema := .obj [
@@ -305,7 +305,7 @@ def cSensorStyle : Schema := .obj [
   ((.str "pixel".toList), cPixel.withShort none),
   ((.str "size".toList), .leaf 14),
   ((.str "sizemode".toList), .leaf 16)]
-  ["as_dict".toList, "copy".toList, "update".toList] none [] true
+  ["_MagicProperties__isfrozen".toList, "__dict__".toList, "__doc__".toList, "__module__".toList, "__slotnames__".toList, "_arrows".toList, "_color".toList, "_description".toList, "_label".toList, "_legend".toList, "_model3d".toList, "_opacity".toList, "_path".toList, "_pixel".toList, "_size".toList, "_sizemode".toList] none [((.str "label".toList), none), ((.str "description".toList), none), ((.str "legend".toList), none), ((.str "color".toList), none), ((.str "opacity".toList), none), ((.str "path".toList), none), ((.str "model3d".toList), none)] true
 
 /-- class `CurrentStyle` -/
 def cCurrentStyle : Schema := .obj [
@@ -318,7 +318,7 @@ def cCurrentStyle : Schema := .obj [
   ((.str "model3d".toList), cModel3d.withShort none),
   ((.str "opacity".toList), .leaf 8),
   ((.str "path".toList), cPath.withShort none)]
-  ["as_dict".toList, "copy".toList, "update".toList] none [] true
+  ["_MagicProperties__isfrozen".toList, "__dict__".toList, "__doc__".toList, "__module__".toList, "__slotnames__".toList, "_arrow".toList, "_color".toList, "_description".toList, "_label".toList, "_legend".toList, "_line".toList, "_model3d".toList, "_opacity".toList, "_path".toList] none [((.str "label".toList), none), ((.str "description".toList), none), ((.str "legend".toList), none), ((.str "color".toList), none), ((.str "opacity".toList), none), ((.str "path".toList), none), ((.str "model3d".toList), none)] true
 
 /-- class `DipoleStyle` -/
 def cDipoleStyle : Schema := .obj [
@@ -332,7 +332,7 @@ def cDipoleStyle : Schema := .obj [
   ((.str "pivot".toList), .leaf 17),
   ((.str "size".toList), .leaf 14),
   ((.str "sizemode".toList), .leaf 16)]
-  ["as_dict".toList, "copy".toList, "update".toList] none [] true
+  ["_MagicProperties__isfrozen".toList, "__dict__".toList, "__doc__".toList, "__module__".toList, "__slotnames__".toList, "_allowed_pivots".toList, "_color".toList, "_description".toList, "_label".toList, "_legend".toList, "_model3d".toList, "_opacity".toList, "_path".toList, "_pivot".toList, "_size".toList, "_sizemode".toList] none [((.str "label".toList), none), ((.str "description".toList), none), ((.str "legend".toList), none), ((.str "color".toList), none), ((.str "opacity".toList), none), ((.str "path".toList), none), ((.str "model3d".toList), none)] true
 
 /-- class `TriangleStyle` -/
 def cTriangleStyle : Schema := .obj [
@@ -345,7 +345,7 @@ def cTriangleStyle : Schema := .obj [
   ((.str "opacity".toList), .leaf 8),
   ((.str "orientation".toList), cOrientation.withShort none),
   ((.str "path".toList), cPath.withShort none)]
-  ["as_dict".toList, "copy".toList, "update".toList] none [((.str "orientation".toList), none)] true
+  ["_MagicProperties__isfrozen".toList, "__dict__".toList, "__doc__".toList, "__module__".toList, "__slotnames__".toList, "_color".toList, "_description".toList, "_label".toList, "_legend".toList, "_magnetization".toList, "_model3d".toList, "_opacity".toList, "_orientation".toList, "_path".toList] none [((.str "label".toList), none), ((.str "description".toList), none), ((.str "legend".toList), none), ((.str "color".toList), none), ((.str "opacity".toList), none), ((.str "path".toList), none), ((.str "model3d".toList), none), ((.str "orientation".toList), none)] true
 
 /-- class `TriangularMeshStyle` -/
 def cTriangularMeshStyle : Schema := .obj [
@@ -359,7 +359,10 @@ def cTriangularMeshStyle : Schema := .obj [
   ((.str "opacity".toList), .leaf 8),
   ((.str "orientation".toList), cOrientation.withShort none),
   ((.str "path".toList), cPath.withShort none)]
-  ["as_dict".toList, "copy".toList, "update".toList] none [((.str "orientation".toList), none)] true
+  ["_MagicProperties__isfrozen".toList, "__dict__".toList, "__doc__".toList, "__module__".toList, "__slotnames__".toList, "_color".toList, "_description".toList, "_label".toList, "_legend".toList, "_magnetization".toList, "_mesh".toList, "_model3d".toList, "_opacity".toList, "_orientation".toList, "_path".toList] none [((.str "label".toList), none), ((.str "description".toList), none), ((.str "legend".toList), none), ((.str "color".toList), none), ((.str "opacity".toList), none), ((.str "path".toList), none), ((.str "model3d".toList), none), ((.str "orientation".toList), none)] true
+
+/-- every callable attribute name of any of the property classes (methods, dunder methods) -/
+def methodNames : List Str := ["__class__".toList, "__delattr__".toList, "__dir__".toList, "__eq__".toList, "__format__".toList, "__ge__".toList, "__getattribute__".toList, "__getstate__".toList, "__gt__".toList, "__hash__".toList, "__init__".toList, "__init_subclass__".toList, "__le__".toList, "__lt__".toList, "__ne__".toList, "__new__".toList, "__reduce__".toList, "__reduce_ex__".toList, "__repr__".toList, "__setattr__".toList, "__sizeof__".toList, "__str__".toList, "__subclasshook__".toList, "_freeze".toList, "_property_names_generator".toList, "_validate_data".toList, "add_trace".toList, "as_dict".toList, "copy".toList, "reset".toList, "update".toList]
 
 /-- `DEFAULTS` (defaults_values.py) -/
 def defaults : Tree := (.node [((.str "display".toList), (.node [((.str "autosizefactor".toList), (.leaf (some 0))), ((.str "animation".toList), (.node [((.str "fps".toList), (.leaf (some 1))), ((.str "maxfps".toList), (.leaf (some 2))), ((.str "maxframes".toList), (.leaf (some 3))), ((.str "time".toList), (.leaf (some 4))), ((.str "slider".toList), (.leaf (some 5))), ((.str "output".toList), (.leaf none))])), ((.str "backend".toList), (.leaf (some 6))), ((.str "colorsequence".toList), (.leaf (some 7))), ((.str "style".toList), (.node [((.str "base".toList), (.node [((.str "path".toList), (.node [((.str "line".toList), (.node [((.str "width".toList), (.leaf (some 8))), ((.str "style".toList), (.leaf (some 9))), ((.str "color".toList), (.leaf none))])), ((.str "marker".toList), (.node [((.str "size".toList), (.leaf (some 10))), ((.str "symbol".toList), (.leaf (some 11))), ((.str "color".toList), (.leaf none))])), ((.str "show".toList), (.leaf (some 5))), ((.str "frames".toList), (.leaf none)), ((.str "numbering".toList), (.leaf (some 12)))])), ((.str "description".toList), (.node [((.str "show".toList), (.leaf (some 5))), ((.str "text".toList), (.leaf none))])), ((.str "legend".toList), (.node [((.str "show".toList), (.leaf (some 5))), ((.str "text".toList), (.leaf none))])), ((.str "opacity".toList), (.leaf (some 8))), ((.str "model3d".toList), (.node [((.str "showdefault".toList), (.leaf (some 5))), ((.str "data".toList), (.leaf (some 13)))])), ((.str "color".toList), (.leaf none))])), ((.str "magnet".toList), (.node [((.str "magnetization".toList), (.node [((.str "show".toList), (.leaf (some 5))), ((.str "arrow".toList), (.node [((.str "show".toList), (.leaf (some 5))), ((.str "size".toList), (.leaf (some 8))), ((.str "sizemode".toList), (.leaf (some 14))), ((.str "offset".toList), (.leaf (some 8))), ((.str "width".toList), (.leaf (some 15))), ((.str "style".toList), (.leaf (some 9))), ((.str "color".toList), (.leaf none))])), ((.str "color".toList), (.node [((.str "north".toList), (.leaf (some 16))), ((.str "middle".toList), (.leaf (some 17))), ((.str "south".toList), (.leaf (some 18))), ((.str "transition".toList), (.leaf (some 19))), ((.str "mode".toList), (.leaf (some 20)))])), ((.str "mode".toList), (.leaf (some 6)))]))])), ((.str "current".toList), (.node [((.str "arrow".toList), (.node [((.str "show".toList), (.leaf (some 5))), ((.str "size".toList), (.leaf (some 8))), ((.str "sizemode".toList), (.leaf (some 14))), ((.str "offset".toList), (.leaf (some 21))), ((.str "width".toList), (.leaf (some 8))), ((.str "style".toList), (.leaf (some 9))), ((.str "color".toList), (.leaf none))])), ((.str "line".toList), (.node [((.str "show".toList), (.leaf (some 5))), ((.str "width".toList), (.leaf (some 15))), ((.str "style".toList), (.leaf (some 9))), ((.str "color".toList), (.leaf none))]))])), ((.str "sensor".toList), (.node [((.str "size".toList), (.leaf (some 8))), ((.str "sizemode".toList), (.leaf (some 14))), ((.str "pixel".toList), (.node [((.str "size".toList), (.leaf (some 8))), ((.str "sizemode".toList), (.leaf (some 14))), ((.str "color".toList), (.leaf none)), ((.str "symbol".toList), (.leaf (some 11)))])), ((.str "arrows".toList), (.node [((.str "x".toList), (.node [((.str "color".toList), (.leaf (some 22)))])), ((.str "y".toList), (.node [((.str "color".toList), (.leaf (some 23)))])), ((.str "z".toList), (.node [((.str "color".toList), (.leaf (some 24)))]))]))])), ((.str "dipole".toList), (.node [((.str "size".toList), (.leaf (some 8))), ((.str "sizemode".toList), (.leaf (some 14))), ((.str "pivot".toList), (.leaf (some 25)))])), ((.str "triangle".toList), (.node [((.str "magnetization".toList), (.node [((.str "show".toList), (.leaf (some 5))), ((.str "arrow".toList), (.node [((.str "show".toList), (.leaf (some 5))), ((.str "size".toList), (.leaf (some 8))), ((.str "sizemode".toList), (.leaf (some 14))), ((.str "offset".toList), (.leaf (some 8))), ((.str "width".toList), (.leaf (some 15))), ((.str "style".toList), (.leaf (some 9))), ((.str "color".toList), (.leaf none))])), ((.str "color".toList), (.node [((.str "north".toList), (.leaf (some 16))), ((.str "middle".toList), (.leaf (some 17))), ((.str "south".toList), (.leaf (some 18))), ((.str "transition".toList), (.leaf (some 19))), ((.str "mode".toList), (.leaf (some 20)))])), ((.str "mode".toList), (.leaf (some 6)))])), ((.str "orientation".toList), (.node [((.str "show".toList), (.leaf (some 5))), ((.str "size".toList), (.leaf (some 8))), ((.str "color".toList), (.leaf (some 26))), ((.str "offset".toList), (.leaf (some 27))), ((.str "symbol".toList), (.leaf (some 28)))]))])), ((.str "triangularmesh".toList), (.node [((.str "orientation".toList), (.node [((.str "show".toList), (.leaf (some 12))), ((.str "size".toList), (.leaf (some 8))), ((.str "color".toList), (.leaf (some 26))), ((.str "offset".toList), (.leaf (some 27))), ((.str "symbol".toList), (.leaf (some 28)))])), ((.str "mesh".toList), (.node [((.str "grid".toList), (.node [((.str "show".toList), (.leaf (some 12))), ((.str "line".toList), (.node [((.str "width".toList), (.leaf (some 15))), ((.str "style".toList), (.leaf (some 9))), ((.str "color".toList), (.leaf (some 29)))])), ((.str "marker".toList), (.node [((.str "size".toList), (.leaf (some 8))), ((.str "symbol".toList), (.leaf (some 11))), ((.str "color".toList), (.leaf (some 29)))]))])), ((.str "open".toList), (.node [((.str "show".toList), (.leaf (some 12))), ((.str "line".toList), (.node [((.str "width".toList), (.leaf (some 15))), ((.str "style".toList), (.leaf (some 9))), ((.str "color".toList), (.leaf (some 30)))])), ((.str "marker".toList), (.node [((.str "size".toList), (.leaf (some 8))), ((.str "symbol".toList), (.leaf (some 11))), ((.str "color".toList), (.leaf (some 29)))]))])), ((.str "disconnected".toList), (.node [((.str "show".toList), (.leaf (some 12))), ((.str "line".toList), (.node [((.str "width".toList), (.leaf (some 15))), ((.str "style".toList), (.leaf (some 9))), ((.str "color".toList), (.leaf (some 29)))])), ((.str "marker".toList), (.node [((.str "size".toList), (.leaf (some 4))), ((.str "symbol".toList), (.leaf (some 11))), ((.str "color".toList), (.leaf (some 29)))])), ((.str "colorsequence".toList), (.leaf (some 31)))])), ((.str "selfintersecting".toList), (.node [((.str "show".toList), (.leaf (some 12))), ((.str "line".toList), (.node [((.str "width".toList), (.leaf (some 15))), ((.str "style".toList), (.leaf (some 9))), ((.str "color".toList), (.leaf (some 32)))])), ((.str "marker".toList), (.node [((.str "size".toList), (.leaf (some 8))), ((.str "symbol".toList), (.leaf (some 11))), ((.str "color".toList), (.leaf (some 29)))]))]))]))])), ((.str "markers".toList), (.node [((.str "marker".toList), (.node [((.str "size".toList), (.leaf (some 15))), ((.str "color".toList), (.leaf (some 26))), ((.str "symbol".toList), (.leaf (some 33)))]))]))]))]))])
